@@ -9,6 +9,7 @@ import (
 	"os/exec"
 	"path/filepath"
 	"sort"
+	"strconv"
 	"strings"
 	"time"
 
@@ -136,21 +137,94 @@ func c11variants(doc *jmut.Node, pools map[string][]string, pick func(n int) int
 		{"supplier.logos", jmut.Ar(jmut.O(jmut.Member{Key: "url", Val: jmut.S("https://example.com/logo.png")}))},
 		{"meta", jmut.O(jmut.Member{Key: "some-key", Val: jmut.S("value")})},
 		{"attachments", jmut.Ar(jmut.O(jmut.Member{Key: "code", Val: jmut.S("ATT1")}, jmut.Member{Key: "url", Val: jmut.S("https://example.com/doc.pdf")}))},
+		{"lines.0.charges", jmut.Ar(jmut.O(jmut.Member{Key: "reason", Val: jmut.S("levy")}, jmut.Member{Key: "quantity", Val: jmut.S("3")}, jmut.Member{Key: "unit", Val: jmut.S("l")}, jmut.Member{Key: "rate", Val: jmut.S("0.10")}))},
+		{"lines.0.discounts", jmut.Ar(jmut.O(jmut.Member{Key: "reason", Val: jmut.S("promo")}, jmut.Member{Key: "percent", Val: jmut.S("5%")}))},
+		{"lines.0.item.identities", jmut.Ar(jmut.O(jmut.Member{Key: "type", Val: jmut.S("GTIN")}, jmut.Member{Key: "code", Val: jmut.S("0123456789012")}))},
+		{"lines.0.item.unit", jmut.S("kg")},
+		{"lines.0.item.origin", jmut.S("PT")},
+		{"supplier.people", jmut.Ar(jmut.O(jmut.Member{Key: "name", Val: jmut.O(jmut.Member{Key: "given", Val: jmut.S("Ana")}, jmut.Member{Key: "surname", Val: jmut.S("Pérez")})}))},
+		{"supplier.telephones", jmut.Ar(jmut.O(jmut.Member{Key: "num", Val: jmut.S("+34 600 000 000")}))},
+		{"supplier.registration", jmut.O(jmut.Member{Key: "capital", Val: jmut.S("3000.00")}, jmut.Member{Key: "currency", Val: jmut.S("EUR")}, jmut.Member{Key: "office", Val: jmut.S("Madrid")})},
+		{"delivery", jmut.O(jmut.Member{Key: "date", Val: jmut.S("2024-01-15")}, jmut.Member{Key: "period", Val: jmut.O(jmut.Member{Key: "start", Val: jmut.S("2024-01-01")}, jmut.Member{Key: "end", Val: jmut.S("2024-01-31")})})},
 		{"ordering", jmut.O(jmut.Member{Key: "code", Val: jmut.S("PO-1")}, jmut.Member{Key: "period", Val: jmut.O(jmut.Member{Key: "start", Val: jmut.S("2024-01-01")}, jmut.Member{Key: "end", Val: jmut.S("2024-01-31")})})},
 	} {
 		d := doc.Clone()
 		parts := strings.Split(add.path, ".")
 		cur := d
 		for _, k := range parts[:len(parts)-1] {
-			cur = cur.Get(k)
 			if cur == nil {
 				break
 			}
+			if idx, err := strconv.Atoi(k); err == nil {
+				if cur.K == jmut.Arr && idx < len(cur.A) {
+					cur = cur.A[idx]
+				} else {
+					cur = nil
+				}
+				continue
+			}
+			cur = cur.Get(k)
 		}
 		if cur == nil || cur.K != jmut.Obj {
 			continue
 		}
 		cur.Set(parts[len(parts)-1], add.val.Clone())
+		d.Del("totals")
+		out = append(out, d)
+		// and every string inside the added member replaced by the hostile values
+		out = append(out, c11generic(d, pick, 0, add.path)...)
+	}
+	return out
+}
+
+// c11hostile are well-formed strings that most constrained string types of the
+// published schemas (keys, codes, units, currencies, countries, dates, uuids)
+// do not allow: wherever the library accepts one, the schema has to as well.
+var c11hostile = []string{"Litres", "per-litre", "lower", "UPPER", "Ab1", "12", "a b", "x_y", "A.B", "a/b", "-", "A-", "é", " x", "x ", "AAAAAAAAAAAAAAAAAAAAAAAAAAAAAAAAAAAAAAAAAAAAAAAAAAAAAAAAAAAAAAAAAAAAAAAAAAAAA", "2024-13-45", "0"}
+
+// c11freeText keys hold prose; two hostile values are enough there.
+var c11freeText = map[string]bool{"name": true, "alias": true, "text": true, "description": true, "reason": true, "notes": true, "street": true, "street_extra": true, "locality": true, "region": true, "label": true, "title": true, "detail": true, "given": true, "surname": true, "val": true}
+
+// c11generic replaces every string of the document (any depth) by each hostile
+// value; limit > 0 takes a seed-determined sample of that many.
+func c11generic(doc *jmut.Node, pick func(n int) int, limit int, under string) []*jmut.Node {
+	type cand struct {
+		p jmut.Path
+		v string
+	}
+	var cands []cand
+	doc.Walk(func(p jmut.Path, n *jmut.Node) {
+		if len(p) == 0 || n.K != jmut.Str {
+			return
+		}
+		key := p[len(p)-1].Key
+		if key == "$schema" || strings.HasPrefix(p.Class(), "totals") {
+			return
+		}
+		if under != "" && !strings.HasPrefix(strings.NewReplacer("[", ".", "]", "").Replace(p.String()), under) {
+			return
+		}
+		vals := c11hostile
+		if c11freeText[key] || (len(p) > 1 && p[len(p)-2].Key == "meta") {
+			vals = c11hostile[:2]
+		}
+		for _, v := range vals {
+			if v != n.S {
+				cands = append(cands, cand{p, v})
+			}
+		}
+	})
+	if limit > 0 && len(cands) > limit {
+		for i := 0; i < limit; i++ {
+			j := i + pick(len(cands)-i)
+			cands[i], cands[j] = cands[j], cands[i]
+		}
+		cands = cands[:limit]
+	}
+	out := make([]*jmut.Node, 0, len(cands))
+	for _, cd := range cands {
+		d := doc.Clone()
+		d.Replace(cd.p, jmut.S(cd.v))
 		d.Del("totals")
 		out = append(out, d)
 	}
@@ -224,7 +298,9 @@ func runC11(c *Ctx) {
 		if err != nil {
 			return
 		}
-		for k, v := range c11variants(doc, pools, rng.IntN, perDoc) {
+		vs := c11variants(doc, pools, rng.IntN, perDoc)
+		vs = append(vs, c11generic(doc, rng.IntN, c.N(120, 0), "")...)
+		for k, v := range vs {
 			var b []byte
 			var verr error
 			p, _ := Safely(func() {
